@@ -977,7 +977,7 @@ package server
 //@ assumed fmt.Sprintf
 //@   pure
 //@ unit (*Dataset).updateDataset
-//@   prop C19 C14
+//@   prop C19 C14 C05
 //@   ghost hadG bool = false
 //@   ghost persistedNsG intmap
 //@   ghost wasFloatG bool = false
